@@ -252,6 +252,9 @@ type Sim struct {
 
 	// current work step context
 	curOutcome string
+	// hand-off outcomes used, cyclically, by sender work inside a settle step that carries them
+	autoOutcomes []string
+	autoIdx      int
 	curCycle   string
 	curTaskId  string
 	curCounter int
@@ -525,6 +528,8 @@ func (s *Sim) Exec(i int, st *Step) (ran bool) {
 	case "quiesce":
 		return s.stepQuiesce(st.Rounds)
 	case "settle":
+		s.autoOutcomes, s.autoIdx = st.Outcomes, 0
+		defer func() { s.autoOutcomes = nil }()
 		return s.stepSettle(st.Rounds)
 	}
 	return false
@@ -744,8 +749,11 @@ func (s *Sim) workSender(st *Step, take []*aioSQE) {
 			continue
 		}
 		s.curOutcome = "ok"
-		if i < len(st.Outcomes) && st.Outcomes[i] != "" {
+		if st.Op == "work" && i < len(st.Outcomes) && st.Outcomes[i] != "" {
 			s.curOutcome = st.Outcomes[i]
+		} else if len(s.autoOutcomes) > 0 {
+			s.curOutcome = s.autoOutcomes[s.autoIdx%len(s.autoOutcomes)]
+			s.autoIdx++
 		}
 		s.curCycle, s.curTaskId, s.curCounter = rec.Cycle, t.Id, t.Counter
 		s.curSender = s.curSender[:0]
